@@ -123,12 +123,12 @@ registry! {
     c03_twin, "C03", quick, 12, hasher, 120 => c03::twin();
     c03_route_l0_n1, "C03", thorough, 12, hasher, 600 => c03::routing_agree(0, 1); // key = 0 symbolic ASCII bytes, 1 shards, transparent hasher
     c03_route_l0_n2, "C03", thorough, 12, hasher, 600 => c03::routing_agree(0, 2); // key = 0 symbolic ASCII bytes, 2 shards, transparent hasher
-    c03_route_l0_n3, "C03", quick, 12, hasher, 600 => c03::routing_agree(0, 3); // key = 0 symbolic ASCII bytes, 3 shards, transparent hasher
+    c03_route_l0_n3, "C03", thorough, 12, hasher, 600 => c03::routing_agree(0, 3); // key = 0 symbolic ASCII bytes, 3 shards, transparent hasher
     c03_route_l0_n16, "C03", thorough, 12, hasher, 600 => c03::routing_agree(0, 16); // key = 0 symbolic ASCII bytes, 16 shards, transparent hasher
     c03_route_l0_n64, "C03", thorough, 12, hasher, 600 => c03::routing_agree(0, 64); // key = 0 symbolic ASCII bytes, 64 shards, transparent hasher
     c03_route_l1_n1, "C03", thorough, 12, hasher, 600 => c03::routing_agree(1, 1); // key = 1 symbolic ASCII bytes, 1 shards, transparent hasher
     c03_route_l1_n2, "C03", thorough, 12, hasher, 600 => c03::routing_agree(1, 2); // key = 1 symbolic ASCII bytes, 2 shards, transparent hasher
-    c03_route_l1_n3, "C03", thorough, 12, hasher, 600 => c03::routing_agree(1, 3); // key = 1 symbolic ASCII bytes, 3 shards, transparent hasher
+    c03_route_l1_n3, "C03", quick, 12, hasher, 600 => c03::routing_agree(1, 3); // key = 1 symbolic ASCII bytes, 3 shards, transparent hasher
     c03_route_l1_n16, "C03", quick, 12, hasher, 600 => c03::routing_agree(1, 16); // key = 1 symbolic ASCII bytes, 16 shards, transparent hasher
     c03_route_l1_n64, "C03", thorough, 12, hasher, 600 => c03::routing_agree(1, 64); // key = 1 symbolic ASCII bytes, 64 shards, transparent hasher
     c03_route_l2_n1, "C03", thorough, 12, hasher, 600 => c03::routing_agree(2, 1); // key = 2 symbolic ASCII bytes, 1 shards, transparent hasher
@@ -148,8 +148,8 @@ registry! {
     c03_home_msetnx, "C03", quick, 12, hasher, 600 => c03::single_home(4, 2); // MSETNX with two distinct symbolic 1-byte keys, 2 shards
     c03_home_sortstore, "C03", thorough, 12, hasher, 600 => c03::single_home(5, 2); // SORTSTORE with two distinct symbolic 1-byte keys, 2 shards
     c03_primary_0, "C03", quick, 8, plain, 300 => c03::primary_is_only_key(0); // single-key command: routing key == its key
-    c03_primary_1, "C03", quick, 8, plain, 300 => c03::primary_is_only_key(1); // single-key command: routing key == its key
-    c03_primary_2, "C03", thorough, 8, plain, 300 => c03::primary_is_only_key(2); // single-key command: routing key == its key
+    c03_primary_1, "C03", thorough, 8, plain, 300 => c03::primary_is_only_key(1); // single-key command: routing key == its key
+    c03_primary_2, "C03", quick, 8, plain, 300 => c03::primary_is_only_key(2); // single-key command: routing key == its key
     c03_primary_3, "C03", thorough, 8, plain, 300 => c03::primary_is_only_key(3); // single-key command: routing key == its key
     c03_primary_4, "C03", thorough, 8, plain, 300 => c03::primary_is_only_key(4); // single-key command: routing key == its key
     c03_primary_5, "C03", thorough, 8, plain, 300 => c03::primary_is_only_key(5); // single-key command: routing key == its key
@@ -159,7 +159,7 @@ registry! {
     c03_primary_9, "C03", thorough, 8, plain, 300 => c03::primary_is_only_key(9); // single-key command: routing key == its key
     c18_twin, "C18", quick, 12, hasher, 120 => c18::twin();
     c18_bucket_order_2, "C18", quick, 12, hasher, 300 => c18::bucket_order(2); // 2 arbitrary key digests, both orders
-    c18_bucket_order_3, "C18", quick, 12, hasher, 600 => c18::bucket_order(3); // 3 arbitrary key digests, all 6 orders
+    c18_bucket_order_3, "C18", thorough, 12, hasher, 600 => c18::bucket_order(3); // 3 arbitrary key digests, all 6 orders
     c18_state_order_d0, "C18", thorough, 12, hasher, 900 => c18::state_insertion_order(0); // keys a,b with symbolic LWW values, two insertion orders, 1 bucket
     c18_state_order_d1, "C18", thorough, 12, hasher, 1500 => c18::state_insertion_order(1); // same, 2 buckets
     c18_sound_lww, "C18", quick, 52, hasher, 600 => c18::key_digest_sound(0); // two LWW values of one key with symbolic stamps/bytes/tombstones
@@ -188,7 +188,7 @@ registry! {
     c15_line_colon_t1_parser, "C15", thorough, 10, alloc, 900 => c15::line(58, 1, 2); // type byte ':' + 1 symbolic bytes, parser decoder
     c15_line_colon_t2_codec, "C15", thorough, 12, alloc, 400 => c15::line(58, 2, 1); // type byte ':' + 2 symbolic bytes, codec decoder
     c15_line_colon_t2_parser, "C15", thorough, 10, alloc, 900 => c15::line(58, 2, 2); // type byte ':' + 2 symbolic bytes, parser decoder
-    c15_line_colon_t3_codec, "C15", quick, 12, alloc, 400 => c15::line(58, 3, 1); // type byte ':' + 3 symbolic bytes, codec decoder
+    c15_line_colon_t3_codec, "C15", thorough, 12, alloc, 400 => c15::line(58, 3, 1); // type byte ':' + 3 symbolic bytes, codec decoder
     c15_line_colon_t3_parser, "C15", thorough, 10, alloc, 900 => c15::line(58, 3, 2); // type byte ':' + 3 symbolic bytes, parser decoder
     c15_line_colon_t4_codec, "C15", thorough, 12, alloc, 400 => c15::line(58, 4, 1); // type byte ':' + 4 symbolic bytes, codec decoder
     c15_line_colon_t4_parser, "C15", thorough, 10, alloc, 900 => c15::line(58, 4, 2); // type byte ':' + 4 symbolic bytes, parser decoder
